@@ -821,7 +821,9 @@ def monitor(case, run):
                     hits.append(('state-mismatch', det))
                 if c['state'] == 'SUCCESS' and norm(run['results'].get(t['ord'])) != norm(c['output']):
                     hits.append(('result-mismatch', dict(det, result=run['results'].get(t['ord']), output=c['output'])))
-            if not ch and t['state'] != 'ERROR':
+            # a task that never started its sub-workflow is ERROR, or CANCELLED together with its workflow when
+            # the start was refused because the workflow execution had been cancelled meanwhile (repo 37dfd026)
+            if not ch and t['state'] != 'ERROR' and not (t['state'] == 'CANCELLED' and pw['state'] == 'CANCELLED'):
                 hits.append(('completed-without-child', det))
         else:
             sts = [c['state'] for c in ch]
